@@ -63,6 +63,9 @@ type Cfg struct {
 	// this many extra goroutines flush the peers concurrently with the TUN reader (keepalives, UAPI sets) during
 	// the traffic: no order is promised then, the outbound lanes are judged as multisets (exactly once, processed)
 	Flushers int `json:"flushers"`
+	// which extra flushers: "uapi" = only re-applications of an UNCHANGED peer setting (handlePostConfig ->
+	// SendStagedPackets; nothing is ever staged by them), "mixed" = those plus keepalive senders (which stage)
+	FlusherKind string `json:"flusher_kind,omitempty"`
 	// the interface goes down and up this many times DURING the outbound flood (sessions are re-established by a
 	// responder loop); outbound lanes: at most once, processed
 	Cycles int `json:"down_up_cycles"`
@@ -412,9 +415,14 @@ func runCase(c Cfg) Case {
 			defer auxWg.Done()
 			on := false
 			for !auxStop.Load() {
-				if g%2 == 0 {
+				switch {
+				case c.FlusherKind == "uapi" || g%3 == 1:
+					// an unchanged setting: no keepalive is staged, the set only runs SendStagedPackets for the peer
+					pi := rng.Intn(len(peers))
+					w.Dev.IpcSet(fmt.Sprintf("public_key=%x\npersistent_keepalive_interval=0\nendpoint=%s\n", peers[pi].Pub[:], peers[pi].Addr))
+				case g%3 == 0:
 					w.Dev.SendKeepalivesToPeersWithCurrentKeypair()
-				} else {
+				default:
 					pi := rng.Intn(len(peers))
 					on = !on
 					v := 0
@@ -555,6 +563,23 @@ func runCase(c Cfg) Case {
 		}
 	}
 	cs.Quiet = w.Settle()
+	if !cs.Quiet && !w.Tun.Idle() {
+		// the device did not come to rest within the deadline and packets handed to the TUN are still unread: is the
+		// TUN reader still making progress (slow machine) or has it stopped reading (stall)?
+		collMu.Lock()
+		allSent = append(allSent, w.Bind.TakeSent()...)
+		n0 := len(allSent)
+		collMu.Unlock()
+		time.Sleep(2 * time.Second)
+		collMu.Lock()
+		allSent = append(allSent, w.Bind.TakeSent()...)
+		n1 := len(allSent)
+		collMu.Unlock()
+		if n1 == n0 && !w.Tun.Idle() {
+			info["tun_reader_stalled"] = true
+			cs.Out[0].Bad++ // "every submitted packet comes out", "finishes its work"
+		}
+	}
 	info["wall_ms"] = time.Since(t0).Milliseconds()
 	per.Stop()
 	collStop.Store(true)
@@ -817,6 +842,7 @@ func genCfg(r *rand.Rand, i int, pkts int) Cfg {
 		// (measured on a seeded copy: without extra flushers 0/12 runs hit the window, with 4 flushers and 8000
 		// one-packet containers 8..9 of 12, with 20000 containers 12/12)
 		c.Flushers = 3 + r.Intn(4)
+		c.FlusherKind = []string{"uapi", "mixed"}[(i/6)%2]
 		c.TunBatch, c.BindBatch, c.ChunkMax = 1, []int{1, 8}[r.Intn(2)], []int{1, 1, 2}[r.Intn(3)]
 		c.Procs = []int{2, 2, 3, 1}[r.Intn(4)]
 		c.PaceUs = 0
